@@ -417,14 +417,16 @@ Section S.
     - eapply Os_bind; [apply (add_node_sound n0 st _ G); [reflexivity|reflexivity|discriminate]|].
       intros [st1 n] [H1 H2]. cbn. exact H1.
     - exact I.
-    - cbn. destruct G as (A & B & C & D). split; [exact A|]. split; [exact B|]. split; [exact C|]. cbn. constructor.
-    - destruct (str_eqb _ _).
+    - destruct (leading_colon _ _); [exact I|].
+      cbn. destruct G as (A & B & C & D). split; [exact A|]. split; [exact B|]. split; [exact C|]. cbn. constructor.
+    - destruct (leading_colon _ _); [exact I|]. destruct (str_eqb _ _).
       + eapply Os_bind; [apply Os_any|]. intros uri _. destruct uri; [exact I|]. apply builder_prefix_sound. exact G.
       + destruct (_ && _).
         * eapply Os_bind; [apply Os_any|]. intros uri _. apply builder_prefix_sound. exact G.
         * apply builder_attribute_sound. exact G.
     - eapply Os_bind; [apply (open_element_sound n0 st G)|]. intros [st1 n] [H1 H2]. cbn. exact H1.
-    - eapply Os_bind; [apply (close_element_sound n0 st prefix local G)|]. intros [st1 n] [H1 H2]. cbn. exact H1.
+    - destruct (leading_colon _ _); [exact I|].
+      eapply Os_bind; [apply (close_element_sound n0 st prefix local G)|]. intros [st1 n] [H1 H2]. cbn. exact H1.
     - eapply Os_bind; [apply (open_element_sound n0 st G)|]. intros [st1 n] [H1 H2]. cbn [fst] in *.
       eapply Os_bind; [apply (pop_node_sound n0 st1 _ H1)|]. intros [st2 n2] [H3 H4]. cbn. exact H3.
     - eapply Os_bind; [apply Os_any|]. intros content _.
